@@ -115,7 +115,9 @@ var names = []string{"", "a", "name with space", "ünï©ode-名", "a&b=c", "100
 // Name draws a pin name.
 func Name() *rapid.Generator[string] { return rapid.SampledFrom(names) }
 
-var metaKeys = []string{"k1", "k 2", "ключ", ""}
+// keys that start with letters of the "meta-" query prefix, repeat the
+// prefix or need escaping are included on purpose; the empty key is last
+var metaKeys = []string{"k1", "k 2", "ключ", "meta", "author", "meta-x", "-t", "a=b&c", ""}
 var metaVals = []string{"", "v", "v w", "&=%", "值"}
 
 // Metadata draws nil or a map of 0..3 entries; the empty key is included only
@@ -129,7 +131,7 @@ func Metadata(emptyKey bool) *rapid.Generator[map[string]string] {
 		m := map[string]string{}
 		keys := metaKeys
 		if !emptyKey {
-			keys = metaKeys[:3]
+			keys = metaKeys[:len(metaKeys)-1]
 		}
 		for i := 0; i < n; i++ {
 			m[rapid.SampledFrom(keys).Draw(t, "mk")] = rapid.SampledFrom(metaVals).Draw(t, "mv")
